@@ -194,8 +194,8 @@ const row_t g_rows[] = {
     {"wcsnatcmp_s", c_wcsnatcmp_s, F_DIN | SRCN | F_SRCBOS | F_VAL, FAM_QUERY, 4, 4, 4, WSTRMAX, OUT_INT, RK_ERRNO},
     {"wcscoll_s", c_wcscoll_s, F_DIN | SRCN | F_SRCBOS, FAM_QUERY, 4, 4, 4, WSTRMAX, OUT_INT, RK_ERRNO},
     {"wcsstr_s", c_wcsstr_s, F_DIN | SRCN | F_SRCBOS, FAM_QUERY, 4, 4, 4, WSTRMAX, OUT_PTR, RK_ERRNO},
-    {"timingsafe_bcmp", c_timingsafe_bcmp, F_DMEM | F_SRC | F_SRCBOS | F_MEM | F_DMAX_ZERO_OK, FAM_QUERY, 1, 1, 1, MEMMAX, OUT_NONE, RK_LEN},
-    {"timingsafe_memcmp", c_timingsafe_memcmp, F_DMEM | F_SRC | F_SRCBOS | F_MEM | F_DMAX_ZERO_OK, FAM_QUERY, 1, 1, 1, MEMMAX, OUT_NONE, RK_LEN},
+    {"timingsafe_bcmp", c_timingsafe_bcmp, F_DMEM | F_SRC | F_SRCBOS | F_MEM | F_DMAX_ZERO_OK | F_NONULL, FAM_QUERY, 1, 1, 1, MEMMAX, OUT_NONE, RK_LEN},
+    {"timingsafe_memcmp", c_timingsafe_memcmp, F_DMEM | F_SRC | F_SRCBOS | F_MEM | F_DMAX_ZERO_OK | F_NONULL, FAM_QUERY, 1, 1, 1, MEMMAX, OUT_NONE, RK_LEN},
 };
 const int g_nrows = (int)(sizeof g_rows / sizeof g_rows[0]);
 
